@@ -136,6 +136,10 @@ def run(chk, repo, tier):
             n3 += 1
         energy_rule(chk, repo, 'C10.R4', q)
     start_vector_rule(chk, repo, 'C10.R2')
+    from . import support
+    support.kernel_rules(chk, repo, 'C10.R5', ['apply_local_hamiltonian', 'contraction_operator_step_left',
+                                               'contraction_operator_step_right'])
+    support.krylov_rules(chk, repo, 'C10.K')
     chk.floor('C10.R3', n3, 120, hard_min=50)
     for a in sorted(eng.assumed):
         chk.assume(a)
